@@ -23,6 +23,9 @@ fn alphabet(with_foreign_price: bool) -> Vec<Value> {
         json!({"type":"TrailingStop","vis":7}),
     ];
     for o in orders { a.push(json!({"op":"add","order":o})); }
+    // arrivals that carry the SAME timestamp as the previous arrival (ties are inside the quantifiers of C04 / C10 / C11)
+    a.push(json!({"op":"add","tie":true,"order":{"type":"Standard","vis":5}}));
+    a.push(json!({"op":"add","tie":true,"order":{"type":"PostOnly","vis":4}}));
     if with_foreign_price { a.push(json!({"op":"add","order":{"type":"PeggedOrder","vis":6,"price":99}})); }
     for q in [1u64, 3, 5, 7, 50] { a.push(json!({"op":"match","qty":q})); }
     for id in [1u64, 2] { a.push(json!({"op":"cancel","id":id})); }
@@ -49,7 +52,9 @@ fn materialize(seq: &[usize], alpha: &[Value]) -> Option<Vec<Value>> {
             "add" => {
                 adds += 1;
                 op["order"]["id"] = json!(adds);
-                op["order"]["ts"] = json!(adds);
+                let tie = op.get("tie").and_then(|x| x.as_bool()).unwrap_or(false);
+                if tie && adds == 1 { return None; }
+                op["order"]["ts"] = json!(if tie { adds - 1 } else { adds });
                 op["order"]["side"] = json!("Sell");
             }
             "fork_restore" => { if forked || pos == 0 { return None; } forked = true; }
@@ -63,6 +68,9 @@ fn materialize(seq: &[usize], alpha: &[Value]) -> Option<Vec<Value>> {
 fn queue_alphabet() -> Vec<Value> {
     let mut a = vec![];
     for id in [1u64, 2, 3] { a.push(json!({"op":"push","order":{"type":"Standard","id":id,"price":100,"vis":5,"side":"Sell","ts":id}})); }
+    // orders with nothing displayed (a spent iceberg tranche, a zero-quantity order) are queued orders like any other
+    a.push(json!({"op":"push","order":{"type":"Iceberg","id":4,"price":100,"vis":0,"hid":7,"side":"Sell","ts":4}}));
+    a.push(json!({"op":"push","order":{"type":"Standard","id":5,"price":100,"vis":0,"side":"Buy","ts":5}}));
     a.push(json!({"op":"pop"}));
     for id in [1u64, 2] { a.push(json!({"op":"remove","id":id})); }
     a.push(json!({"op":"find","id":1}));
